@@ -15,7 +15,7 @@ if [ "${RUN_REPO_TESTS:-1}" = "1" ]; then
 fi
 RC=0
 for id in "$@"; do
-  OUT="$(cd "${VERIF_DIR:-/verif}" && VERIF_REPO="$SCR" VERIF_ROOT=/tmp/scratch/verif-out ./check "$id" --tier "${TIER:-quick}" 2>&1)"
+  OUT="$(cd "${VERIF_DIR:-/verif}" && VERIF_REPO="$SCR" VERIF_ROOT="/tmp/scratch/verif-out-$(basename "$SCR")" ./check "$id" --tier "${TIER:-quick}" 2>&1)"
   echo "$OUT" | grep -E "^(done|VIOLATION|violation|KNOWN|HARNESS)" | cut -c1-400
 done
 git -C "$SCR" checkout -- . && git -C "$SCR" clean -fdq -e target
